@@ -1920,6 +1920,13 @@ class Exec:
             return Loc('mem', et, p + i * BV(max(et.size, 1), 64))
         if k == 'UnaryOperator' and n['opcode'] == '*':
             p = self.ev(n['inner'][0], st)
+            wd = getattr(self.reg, 'word_derefs', None)
+            if wd:
+                qt = (n['inner'][0].get('type') or {}).get('qualType', '')
+                if qt in wd and self.tu.ctype_of(n).size == 8:
+                    # (opt-in per registry) what a pointer of this C type points to is kept as whole words in a heap of
+                    # its own, indexed by address (A-SEP: such memory is reached only through pointers of this type)
+                    return Loc('field', self.tu.ctype_of(n), p, wd[qt], 0)
             hit = self._field_ptrs.get(p.get_id()) if z3.is_expr(p) else None
             if hit is not None and hit[1].ctype.size == self.tu.ctype_of(n).size:
                 return hit[1]
